@@ -33,4 +33,5 @@ var All = map[string]func(*Ctx){
 	"C17": C17,
 	"C18": C18,
 	"C19": C19,
+	"C20": C20,
 }
